@@ -103,6 +103,11 @@ def unit_sweep_range_text():
         def char_cases():
             for sep in SEPS:
                 yield [(97, 99, False)], "'a'%s\"c\"" % sep
+                yield [(97, 99, False)], "'a'%s'c'" % sep
+                yield [(48, 57, False), (120, 120, True)], "'0'%s'9', 'x'" % sep
+                yield [(65, 67, False), (5, 7, False)], "'A'%s'C', 5%s7" % (sep, sep)
+                yield [(97, None, False), (None, 90, False)], "'a'%s, %s'Z'" % (sep, sep)
+                yield [(34, 39, False)], "'\"'%s\"'\"" % sep
                 yield [(9, 13, False)], "tab%sCR" % sep
                 yield [(9, 9, True), (11, 12, False), (65, None, False)], "Tab, vt%sff, 'A'%s" % (sep, sep)
                 yield [(None, 10, False), (0x41, 0x5a, False)], "%sLF,0x41%s0x5A" % (sep, sep)
